@@ -44,6 +44,8 @@ structure ECfg (α β : Type) where
   vars : Array Nat
   F : FeatOracle α
   dedup : List (Feat α) → List (Feat α)
+  normPos : V3 α → Bool          -- `deriv.norm() > 0`
+  check : Feat α → V3 α → Bool   -- `Feature::check(e)`
   ne : α → α → Bool              -- `!=` on floats
   ine : β → α → Bool             -- `i.lower() != x || i.upper() != x`
 
@@ -115,17 +117,23 @@ def qGradient (C : ECfg α β) (T : TapeM) (p : Pt α) (s : EState α β) : ESta
             d := fun k row _ => spatialSeed C.O C.X C.Y C.Z row k,
             j := fun i => ans.getD i C.O.zero }, ans)
 
+/-- the specialised tape `valueAndPush(p, tape)` returns (keep function from column 0 of this
+    call's own value pass) -/
+def pushedTape (C : ECfg α β) (T : TapeM) (p : Pt α) (s : EState α β) : TapeM :=
+  T.push (pointKeep C.O.lt (fun k => valuePass C T.t (setPts C s [p]) (simdRound C.simd 1) k 0))
+
 /-- `FeatureEvaluator::features_(p, tape)`: `valueAndPush`, `filled = 1`, feature walk over the
-    specialised tape.  The stale scratch of the array-wise paths comes from the state: `count_simd`
-    as left by the value pass, `d` columns as they are, output value rows as the value pass left
-    them (columns ≥ 1 hold values of stale X/Y/Z columns). -/
+    specialised tape.  Since aa9f57c / 3ea66fb the array-wise paths read no scratch of earlier
+    calls (see `featUnary`): the walk depends on column 0 of this call's value pass and on the
+    leaf feature lists only.
+    Not modelled: the walk also WRITES operand feature derivatives into `d(a)` lanes and replicates
+    value rows; for leaf operands these writes store the seed values again (leaf feature = seed),
+    which the C15 driver checks on the real evaluator after every query (`seedsok`). -/
 def qFeatures (C : ECfg α β) (T : TapeM) (p : Pt α) (s : EState α β) : EState α β × List (Feat α) :=
   let cs := simdRound C.simd 1
   let v' := valuePass C T.t (setPts C s [p]) cs
-  let T' := T.push (pointKeep C.O.lt (fun k => v' k 0))
-  let staleD : Nat → Nat → V3 α := fun id lane => ⟨s.d id 0 lane, s.d id 1 lane, s.d id 2 lane⟩
-  let st := featList C.O C.F C.dedup s.clearVars C.N C.simd staleD (fun id lane => v' id lane)
-              (fun k => v' k 0) T'.t ⟨s.f, cs⟩
+  let T' := pushedTape C T p s
+  let st := featList C.O C.F C.dedup s.clearVars C.N C.simd (fun k => v' k 0) T'.t ⟨s.f, cs⟩
   ({ s with v := v', f := st.f, countSimd := st.countSimd, countActual := 1, filled := fun _ => 1 },
    st.f T'.root)
 
@@ -134,30 +142,26 @@ def qFeatureList (C : ECfg α β) (T : TapeM) (p : Pt α) (s : EState α β) : E
   let r := qFeatures C T p s
   (r.1, uniqDerivs C.F.veq r.2)
 
-/-- the feature scratch the walk of `qFeatures` runs with (for stating its hypotheses) -/
-def featScratchOf (C : ECfg α β) (T : TapeM) (p : Pt α) (s : EState α β) :
-    (Nat → Nat → V3 α) × (Nat → Nat → α) × (Nat → α) × TapeM :=
-  let cs := simdRound C.simd 1
-  let v' := valuePass C T.t (setPts C s [p]) cs
-  (fun id lane => ⟨s.d id 0 lane, s.d id 1 lane, s.d id 2 lane⟩, fun id lane => v' id lane,
-   fun k => v' k 0, T.push (pointKeep C.O.lt (fun k => v' k 0)))
+/-- `FeatureEvaluator::isInside`: the sign decides when the value is non-zero (no feature walk,
+    feature lists untouched); at value 0 the features of the root decide. -/
+def qIsInside (C : ECfg α β) (T : TapeM) (p : Pt α) (s : EState α β) : EState α β × Bool :=
+  let r := qFeatures C T p s
+  let value := r.1.v T.root 0
+  match insideBySign C.O.lt C.O.zero value with
+  | some b => ({ s with v := r.1.v, countSimd := simdRound C.simd 1, countActual := 1 }, b)
+  | none => (r.1, insideByFeatures C.normPos C.F.negv C.check r.2)
 
-/-- bookkeeping of `count_simd` along a feature walk, from the operand feature counts alone
-    (what the C15 driver replays): returns the hypotheses that fail. -/
-def featCountWalk (N simd : Nat) (count : Nat → Nat) : List Clause → Nat × List (String × Nat) →
-    Nat × List (String × Nat)
-  | [], acc => acc
-  | c :: rest, acc =>
-    let (cs, bad) := featCountWalk N simd count rest acc
-    if c.op = Op.min ∨ c.op = Op.max then (cs, bad)
+/-- `count_simd` a feature walk leaves behind, from the operand feature counts alone (what the
+    C15 driver replays): every array-wise clause with at least one lane does `setCount`. -/
+def featCountWalk (N simd : Nat) (count : Nat → Nat) : List Clause → Nat → Nat
+  | [], cs => cs
+  | c :: rest, cs =>
+    let cs := featCountWalk N simd count rest cs
+    if c.op = Op.min ∨ c.op = Op.max then cs
     else if c.op.args = some 1 then
-      let n := count c.a
-      let bad := if c.op = Op.sqrt ∧ n > 1 then bad ++ [("sqrt-ov", c.id)] else bad
-      let last := if n = 0 then 0 else if n % N = 0 then N else n % N
-      (if n = 0 then cs else simdRound simd last, bad)
+      (if count c.a = 0 then cs else simdRound simd (lastChunk N (count c.a)))
     else if c.op.args = some 2 then
-      let n := count c.a * count c.b
-      (cs, if min n N > cs then bad ++ [("setCount", c.id)] else bad)
-    else (cs, bad)
+      (if count c.a * count c.b = 0 then cs else simdRound simd (lastChunk N (count c.a * count c.b)))
+    else cs
 
 end Libfive
